@@ -35,9 +35,34 @@ def generate(ctx, module, cfg, name="cases.jsonl", **kw):
     return p, len(r.lines)
 
 
+def _simpleiot_crash(stderr):
+    """If the harness died of a Go panic whose first stack frames are simpleiot code, describe it."""
+    lines = stderr.splitlines()
+    for i, ln in enumerate(lines):
+        if ln.startswith("panic:") or ln.startswith("fatal error:"):
+            frames = [l.strip() for l in lines[i + 1:i + 40] if l.strip() and not l.startswith("\t")]
+            funcs = [f for f in frames if "(" in f and not f.startswith("goroutine") and not f.startswith("created by")]
+            # skip runtime frames; the first non-runtime frame decides whose code panicked
+            for f in funcs:
+                if f.startswith("runtime.") or f.startswith("panic(") or f.startswith("reflect."):
+                    continue
+                if f.startswith("github.com/simpleiot/simpleiot/"):
+                    return {"panic": ln[:300], "stack": frames[:14]}
+                break
+    return None
+
+
 def harness(ctx, vh, args, timeout=3600, env=None, ok_rcs=(0,)):
     out = ctx.sc.path("result-%d.json" % len(os.listdir(ctx.sc.dir)))
     p = vlib.run_vh(vh, args + ["--out", out], timeout=timeout, env=env)
+    crash = _simpleiot_crash(p.stderr) if p.returncode not in ok_rcs else None
+    if crash:
+        # the real code panicked (in a goroutine the driver cannot recover) while a behaviour of the
+        # property's domain was replayed: that is behaviour of the code under test, not of the machinery
+        return {"evaluations": 1, "distinct_nontrivial": 2, "traces": 0, "samples": [{"crash": crash}],
+                "failures": [{"finding": "crash-in-simpleiot", "what": "simpleiot code panicked while the behaviours were replayed: " + crash["panic"],
+                              "case": {"command": args[0], "stack": crash["stack"]}}],
+                "extra": {"crashed": True}, "_stderr": p.stderr}
     if p.returncode not in ok_rcs or not os.path.exists(out):
         raise vlib.MachineryError("harness %s failed rc=%s\nstdout: %s\nstderr: %s" % (
             args[0], p.returncode, p.stdout[-2000:], p.stderr[-4000:]))
